@@ -54,7 +54,7 @@ class C17(RailsProp):
             "`bot say something like`) + a 2-4 turn conversation; executed fault-free (P LLM call positions) and then once per (position, hostile text) for every position and a corpus sample "
             "(40 hostile texts + mutations of the well-formed reply). evaluations = executions; non-trivial = executions whose substituted reply was really consumed; "
             "distinct = distinct (mode, task at the position, hostile text name)")
-    expected_probes = ["hostile_at_intent_call", "hostile_at_next_steps_call", "hostile_at_bot_message_call", "hostile_at_v2_value_generation", "template_text_survived_literally"]
+    expected_probes = ["hostile_at_intent_call", "hostile_at_next_steps_call", "hostile_at_bot_message_call", "hostile_at_v2_value_generation", "template_text_survived_literally", "sequence_of_hostile_replies"]
     exhaustive_parts = ["every LLM call position of every sampled conversation", "the whole hostile corpus per position in the thorough tier"]
     quick_runs = 24
     thorough_runs = 1500
@@ -94,14 +94,18 @@ class C17(RailsProp):
         sc["hostile"] = "enumerate"
         sc["corpus_seed"] = d.randint(0, 1 << 30, "cseed")
         sc["per_position"] = 3 if tier == "quick" else len(corpus.HOSTILE) + 4
+        sc["sequences"] = 4 if tier == "quick" else 60
         return sc
 
     def run_one(self, sc, fault, tr):
         """fault: None or [position, name, text]. Returns (records, calls, hang)."""
         def patch(world):
             if fault is not None:
-                pos, name, text = fault
-                world.llm_world.fault_fn = lambda call: text if call.n == pos else None
+                # one hostile reply, or a sequence of them (further [position, text] pairs after the first three fields)
+                table = {fault[0]: fault[2]}
+                for p2, t2 in fault[3:]:
+                    table[p2] = t2
+                world.llm_world.fault_fn = lambda call: table.get(call.n)
         budget = min(WORK_CAP, max(WORK_FLOOR, WORK_FACTOR * getattr(self, "_base_work", 0)))
         for attempt in (0, 1):
             try:
@@ -127,7 +131,7 @@ class C17(RailsProp):
 
     def judge(self, sc, fault, records, calls, hang, base_replies, out):
         mode = ("v1:" if sc["colang"] == "1.0" else "v2:") + sc["mode"] + ("+stream" if sc.get("streaming") else "")
-        pos, name, text = fault
+        pos, name, text = fault[:3]
         task = "?"
         if calls is not None and pos < len(calls):
             task = calls[pos].task
@@ -147,6 +151,8 @@ class C17(RailsProp):
             ok = (rec.reply_role == "assistant" and isinstance(rec.reply, str)) or (rec.reply_role == "exception" and isinstance(rec.reply, dict))
             if not ok:
                 out.violate("malformed-reply", "%s:%s" % (mode, task), "LLM reply %r (%s) at call %d (%s): reply message is %r" % (text[:80], name, pos, task, rec.raw), pin={"hostile": [list(fault)]})
+            if name.startswith("seq:"):
+                continue  # sequences of hostile replies: completion and well-formedness only (the literal clauses compare with ONE injected text)
             if evaluated and isinstance(rec.reply, str) and evaluated in rec.reply and evaluated not in base_replies:
                 out.violate("template-evaluated", "%s:%s:%s" % (mode, task, name), "LLM reply %r at call %d (%s) came back evaluated: %r" % (text, pos, task, rec.reply), pin={"hostile": [list(fault)]})
             # generic form for texts with sentinels: Q7<syntax>Q8 came back as Q7<something without the syntax opener>Q8
@@ -216,10 +222,20 @@ class C17(RailsProp):
                 for n in pick:
                     faults.append([p, n, corpus.BY_NAME[n][0]])
                 faults.append([p, "mutation", corpus.mutate(base_text[p] or "", d, "mut", p)])
+            # sequences: hostile replies at two or three call positions of the same conversation (positions are call numbers of the
+            # run as it unfolds - after the first hostile reply the later calls may be other calls than in the fault-free run)
+            names = [n for n, _, _ in corpus.HOSTILE]
+            for j in range(sc.get("sequences", 0) if P >= 2 else 0):
+                k = 3 if P >= 3 and d.chance(0.3, "seqlen", j) else 2
+                ps = sorted(d.sample(list(range(P)), k, "seqpos", j))
+                ns = [d.choice(names, "seqname", j, i) for i in range(k)]
+                faults.append([ps[0], "seq:" + "+".join(ns), corpus.BY_NAME[ns[0]][0]] + [[ps[i], corpus.BY_NAME[ns[i]][0]] for i in range(1, k)])
         else:
             faults = [list(f) for f in sc["hostile"]]
         for fault in faults:
-            tr.log("fault", fault[0], fault[1])
+            tr.log("fault", fault[0], fault[1], [x[0] for x in fault[3:]])
+            if fault[3:]:
+                out.probe("sequence_of_hostile_replies")
             recs, cls, hg = self.run_one(sc, fault, tr)
             out.evaluations += 1
             out.fault("peer_garbage")
